@@ -399,6 +399,23 @@ for _p in ("C16", "C12"):
     PROPS[_p]["claim"] += _GENSUITES_CLAIM
     PROPS[_p]["proofs"] = PROPS[_p]["proofs"] + ["Bmc.Proofs.GenDec.CipherSuiteRecords"]
 
+# The RAKP key formulas (authenticator.go, hasher.go, confidentiality.go) regenerated (tools/keygen -> lean/Bmc/Gen/Keys.lean) and
+# proved to be the handshake model's (lean/Bmc/Proofs/GenKeys/*.lean) support C01 and C02 alike.
+GENKEYS = ["Bmc.Proofs.GenKeys.TranslatedOk", "Bmc.Proofs.GenKeys.SIK", "Bmc.Proofs.GenKeys.Rakp2", "Bmc.Proofs.GenKeys.Rakp3", "Bmc.Proofs.GenKeys.ICV",
+           "Bmc.Proofs.GenKeys.KConstant", "Bmc.Proofs.GenKeys.Tables", "Bmc.Proofs.GenKeys.Integrity", "Bmc.Proofs.GenKeys.Cipher"]
+_GENKEYS_CLAIM = (" REGENERATED KEY FORMULAS: calculateSIK, calculateRAKPMessage2AuthCode, calculateRAKPMessage3AuthCode, calculateRAKPMessage4ICV, executeHash, "
+                  "additionalKeyMaterialGenerator.K, truncatedHash, the constructors of authenticationAlgorithmParams and the tables algorithmAuthenticationHashGenerator / "
+                  "algorithmHasher / algorithmCipher are RE-TRANSLATED from the Go source on every run (tools/keygen -> Gen/Keys.lean: the byte string each function writes into "
+                  "its hash.Hash, in order, after checking that it ends with Sum(nil) / Reset / return of that sum and that nothing else touches the hash) and proved, for every "
+                  "field value, to be the message the model's %s apply the keyed hash to, with the model's hash, key index, K constant (20 bytes) and truncation lengths "
+                  "(Proofs/GenKeys/*.lean) - swapping two Write calls, dropping the role bit or changing kConstantLength breaks exactly one obligation at build time.")
+for _p, _what in (("C01", "sikOf / K1 / K2 (and rakp3Code, which the BMC must accept)"), ("C02", "rakp2Code / icvOf / sikOf (the checks a session is returned only through)")):
+    PROPS[_p]["claim"] += _GENKEYS_CLAIM % _what
+    PROPS[_p]["proofs"] = PROPS[_p]["proofs"] + GENKEYS
+    PROPS[_p]["note"] += ("; Gen/Keys.lean rests on the hash.Hash / io.Writer contract (Write appends what the slice holds at the call and does not retain it, Sum(nil) is the MAC of "
+                          "what was written since the last Reset, hmac.New starts reset) written out in its header and in Lemmas/GenKeys.lean: mac")
+    PROPS[_p]["modelled"] = PROPS[_p]["modelled"] + ["key formulas keygen gives up on (listed in Gen/Keys.lean: gaveUp, with reasons; none at delivery) stay hand models tied by correspondence only"]
+
 # The regenerated serialisers (tools/encgen -> lean/Bmc/Gen/Enc.lean) and their equality with the hand encoder models
 # (lean/Bmc/Proofs/GenEnc.lean) support C06 and C08 alike.
 GENENC_LAYERS = 17
@@ -416,3 +433,12 @@ for _p in ("C06", "C08"):
     PROPS[_p]["claim"] += _GENENC_CLAIM
     PROPS[_p]["proofs"] = PROPS[_p]["proofs"] + ["Bmc.Proofs.GenEnc.TranslatedOk", "Bmc.Proofs.GenEnc.GetSensorReadingReq", "Bmc.Proofs.GenEnc.GetDCMICapabilitiesInfoReq", "Bmc.Proofs.GenEnc.GetDCMISensorInfoReq", "Bmc.Proofs.GenEnc.ChassisControlReq", "Bmc.Proofs.GenEnc.CloseSessionReq", "Bmc.Proofs.GenEnc.GetChannelAuthenticationCapabilitiesReq", "Bmc.Proofs.GenEnc.GetChannelCipherSuitesReq", "Bmc.Proofs.GenEnc.GetSDRReq", "Bmc.Proofs.GenEnc.GetSessionInfoReq", "Bmc.Proofs.GenEnc.SetSessionPrivilegeLevelReq", "Bmc.Proofs.GenEnc.OpenSessionReq", "Bmc.Proofs.GenEnc.RAKPMessage3", "Bmc.Proofs.GenEnc.RAKPMessage1", "Bmc.Proofs.GenEnc.V1Session", "Bmc.Proofs.GenEnc.Message", "Bmc.Proofs.GenEnc.GetPowerReadingReq", "Bmc.Proofs.GenEnc.V2Session"]
     PROPS[_p]["modelled"] = PROPS[_p]["modelled"] + ["serialisers encgen gives up on (listed in Gen/Enc.lean: gaveUp, with reasons) stay hand models tied by correspondence only"]
+
+# C04's acceptance path runs through the session-wrapper, AES and message decoders; C03's transmissions through the
+# corresponding serialisers: their regenerated translations are obligations of these properties too.
+PROPS["C04"]["proofs"] = PROPS["C04"]["proofs"] + ["Bmc.Proofs.GenDec.V2Session", "Bmc.Proofs.GenDec.AES128CBC", "Bmc.Proofs.GenDec.Message"]
+PROPS["C04"]["claim"] += (" The wrapper, AES and message DECODERS the acceptance test runs through are re-translated from the source on every run and proved "
+                          "equal to the models these theorems are about (Proofs/GenDec/{V2Session,AES128CBC,Message}).")
+PROPS["C03"]["proofs"] = PROPS["C03"]["proofs"] + ["Bmc.Proofs.GenEnc.V2Session", "Bmc.Proofs.GenEnc.Message"]
+PROPS["C03"]["claim"] += (" The wrapper and message SERIALISERS are re-translated from the source on every run and proved equal to the encoder models "
+                          "(Proofs/GenEnc/{V2Session,Message}); the AES serialiser is a hand model tied by correspondence.")
